@@ -4,28 +4,41 @@
    joins or computes, base facts for src admitted by its bound (+ optionally one that is not admitted) and an
    optional base fact written for dst directly.                                                               *)
 EXTENDS Types, Json, SequencesExt
-CONSTANTS Randomized
+CONSTANTS Randomized,
+          Family        \* "single": one bound row per predicate; "rows": several rows and premises that refine a bound variable
 VARIABLE c
 Cn(parts) == <<"cn", parts>>
 T(x) == <<"ty", x>>
-SrcTypes == { T("/number"), T("/string"), T("/name"), T("/any"), <<"pre", <<"foo">>>>, <<"pre", <<"foobar">>>>,
+SrcTypes == { T("/number"), T("/string"), T("/name"), T("/any"), <<"pre", <<"foo">>>>, <<"pre", <<"foobar">>>>, <<"pre", <<"bar">>>>,
               <<"union", <<T("/number"), T("/string")>>>>, <<"tpair", T("/number"), T("/string")>>, <<"tpair", <<"pre", <<"foo">>>>, T("/number")>>,
               <<"tlist", T("/number")>>, <<"tlist", <<"pre", <<"foo">>>>>>, <<"tmap", T("/string"), T("/number")>>,
               <<"tstruct", <<<<"a", T("/number"), FALSE>>>>>>, <<"tstruct", <<<<"a", T("/number"), FALSE>>, <<"b", T("/string"), FALSE>>>>>> }
 DstTypes == SrcTypes \cup { <<"pre", <<"foo", "a">>>>, <<"tpair", T("/any"), T("/any")>>, <<"tlist", T("/any")>>, <<"tmap", T("/any"), T("/number")>>,
                             <<"union", <<<<"pre", <<"foo">>>>, T("/number")>>>> }
 Templates == {"copy", "pair_with_string", "fst", "snd", "plus1", "join_other", "list_of", "member", "cons_self", "name_to_string", "struct_get_a", "map_of", "none"}
-Consts == { Num(0), Num(1), Str("a"), Str("x"), Cn(<<"foo", "a">>), Cn(<<"foo", "a", "b">>), Cn(<<"foobar", "x">>), Cn(<<"bar">>),
+Consts == { Num(0), Num(1), Str("a"), Str("x"), Cn(<<"foo", "a">>), Cn(<<"foo", "a", "b">>), Cn(<<"foobar", "x">>), Cn(<<"bar">>), Cn(<<"bar", "b">>),
             Pair(Num(1), Str("a")), Pair(Cn(<<"foo", "a">>), Num(1)), Pair(Str("a"), Num(1)),
             List(<<>>), List(<<Num(1), Num(0)>>), List(<<Cn(<<"foo", "a">>)>>), List(<<Str("a")>>),
             MapV(<<<<Str("k"), Num(1)>>>>), MapV(<<<<Num(1), Num(1)>>>>),
             StructV(<<<<Cn(<<"a">>), Num(1)>>>>), StructV(<<<<Cn(<<"a">>), Num(1)>>, <<Cn(<<"b">>), Str("x")>>>>) }
 Admitted(t) == {k \in Consts : Member(t, k)}
-Cases ==
-  {[t1 |-> t1, t2 |-> t2, tpl |-> tp, facts |-> SetToSeq(fs), dstfact |-> df] :
+Cases1 ==
+  {[t1 |-> t1, t1b |-> <<>>, t2 |-> t2, t2b |-> <<>>, tpl |-> tp, facts |-> SetToSeq(fs), dstfact |-> df] :
      t1 \in SrcTypes, t2 \in DstTypes, tp \in Templates,
      fs \in {{}} \cup {{k} : k \in Consts},
      df \in {<<>>} }
+\* several bound rows (alternatives) per predicate, and bodies in which a later premise refines the type a
+\* variable got from an earlier one (a wide predicate first, the multi-row predicate second, or the reverse)
+RowTypes == { T("/number"), T("/string"), T("/name"), <<"pre", <<"foo">>>>, <<"pre", <<"bar">>>>, <<"pre", <<"foobar">>>>,
+              <<"tpair", T("/number"), T("/string")>>, <<"tlist", T("/number")>> }
+RowTemplates == {"copy", "any_then_src", "name_then_src", "src_then_any", "src_then_name", "join_other", "two_srcs"}
+Cases2All ==
+  {[t1 |-> t1, t1b |-> t1b, t2 |-> t2, t2b |-> t2b, tpl |-> tp, facts |-> SetToSeq(fs), dstfact |-> <<>>] :
+     t1 \in RowTypes, t1b \in RowTypes, t2 \in RowTypes \cup {T("/any")}, t2b \in {<<>>} \cup {<<"pre", <<"bar">>>>, T("/string")},
+     tp \in RowTemplates,
+     fs \in {{k} : k \in Consts} \cup {{Cn(<<"foo", "a">>), Cn(<<"bar", "b">>)}, {Num(1), Str("a")}} }
+Cases2 == {x \in Cases2All : x.t1 # x.t1b}
+Cases == IF Family = "rows" THEN Cases2 ELSE Cases1
 Init == c = <<>>
 Pick == c = <<>> /\ c' \in (IF Randomized THEN {RandomElement(Cases)} ELSE Cases)
 Next == Pick
